@@ -1052,6 +1052,7 @@ func (x *Exec) funValueCall(st *State, e *ast.CallExpr, f Term, ft types.Type, s
 			}
 		}
 	}
+	boundOnce := target != nil // the callee variable is bound exactly once to this literal (capture analysis)
 	if target == nil {
 		target = st.closures[f.S]
 	}
@@ -1065,8 +1066,8 @@ func (x *Exec) funValueCall(st *State, e *ast.CallExpr, f Term, ft types.Type, s
 			x.contractCall(st, e, spec, sig, target.Name, nil, args, &f, k)
 			return
 		}
-		if st.closures[f.S] == target && st.depth < 4 {
-			// a closure created on this path and without a contract: run its body
+		if (st.closures[f.S] == target || boundOnce) && st.depth < 4 {
+			// a closure created on this path, or a helper literal a variable is bound to exactly once, without a contract: run its body
 			x.inlineCall(st, target, nil, args, k)
 			return
 		}
